@@ -66,8 +66,9 @@ SameOutcome(o1, o2) == \/ (o1.k = "v" /\ o2.k = "v" /\ Same(o1.v, o2.v))
 \* or from earlier executions (each entry of `held` pairs a value's first encoding with its current one)
 PureOK(r) ==
   /\ ("vars_after" \in DOMAIN r) =>
-        /\ Len(r.vars_after) = Len(r.vars)
-        /\ \A i \in 1..Len(r.vars) : r.vars_after[i][1] = r.vars[i][1] /\ Same(r.vars[i][2], r.vars_after[i][2])
+        LET before == IF "vars_before" \in DOMAIN r THEN r.vars_before ELSE r.vars IN      \* vars_before: the context itself, when the execution ran in an inner scope that shadows part of it
+        /\ Len(r.vars_after) = Len(before)
+        /\ \A i \in 1..Len(before) : r.vars_after[i][1] = before[i][1] /\ Same(before[i][2], r.vars_after[i][2])
   /\ ("held" \in DOMAIN r) => \A i \in 1..Len(r.held) : Same(r.held[i][1], r.held[i][2])
 \* End to end: the tree that was evaluated (exported by the implementation's parser) is the tree the
 \* grammar transcription assigns to the source text, so a parser change cannot hide behind a faithful evaluator.
